@@ -46,7 +46,7 @@ func (p *ProcessorOrchestrator) Create(
 	}
 	r.AppendPure(txn.Discard)
 
-	pl, _, err := p.getProcessorsPipeline(ctx, parent)
+	pl, parentConn, err := p.getProcessorsPipeline(ctx, parent)
 	if err != nil {
 		return nil, err
 	}
@@ -81,21 +81,29 @@ func (p *ProcessorOrchestrator) Create(
 
 	switch parent.Type {
 	case processor.ParentTypePipeline:
+		oldUpdatedAt := pl.UpdatedAt
 		_, err = p.pipelines.AddProcessor(ctx, pl.ID, proc.ID)
 		if err != nil {
 			return nil, cerrors.Errorf("could not add processor to pipeline: %w", err)
 		}
 		r.Append(func() error {
-			_, err := p.pipelines.RemoveProcessor(ctx, pl.ID, proc.ID)
+			restored, err := p.pipelines.RemoveProcessor(ctx, pl.ID, proc.ID)
+			if err == nil {
+				restored.UpdatedAt = oldUpdatedAt // the pipeline was not modified after all
+			}
 			return err
 		})
 	case processor.ParentTypeConnector:
+		oldUpdatedAt := parentConn.UpdatedAt
 		_, err = p.connectors.AddProcessor(ctx, parent.ID, proc.ID)
 		if err != nil {
 			return nil, cerrors.Errorf("could not add processor to connector: %w", err)
 		}
 		r.Append(func() error {
-			_, err := p.connectors.RemoveProcessor(ctx, parent.ID, proc.ID)
+			restored, err := p.connectors.RemoveProcessor(ctx, parent.ID, proc.ID)
+			if err == nil {
+				restored.UpdatedAt = oldUpdatedAt // the connector was not modified after all
+			}
 			return err
 		})
 	default:
@@ -170,6 +178,7 @@ func (p *ProcessorOrchestrator) Update(ctx context.Context, id string, plugin st
 	// provisioned by API
 	oldPlugin := proc.Plugin
 	oldConfig := proc.Config
+	oldUpdatedAt := proc.UpdatedAt
 
 	pl, _, err := p.getProcessorsPipeline(ctx, proc.Parent)
 	if err != nil {
@@ -187,7 +196,10 @@ func (p *ProcessorOrchestrator) Update(ctx context.Context, id string, plugin st
 		return nil, err
 	}
 	r.Append(func() error {
-		_, err = p.processors.Update(ctx, proc.ID, oldPlugin, oldConfig)
+		restored, err := p.processors.Update(ctx, proc.ID, oldPlugin, oldConfig)
+		if err == nil {
+			restored.UpdatedAt = oldUpdatedAt // the processor was not modified after all
+		}
 		return err
 	})
 
